@@ -196,8 +196,10 @@ def simulateWith (f : Nat → List α → Option (List Nat)) (ir : InitRes) (us 
   | none => none
   | some ps => some ⟨ir.dim, ps⟩
 
-/-- The whole of `simulate_indices` (469-520) given the uniforms: init handling, then
-    `random_state.random(size=(k, ts_length-1))` (`ValueError` for `ts_length = 0`: negative
+/-- The whole of `simulate_indices` given the uniforms: `ts_length = operator.index(ts_length)`
+    (fix d656660: every integer form — Python int, signed/unsigned NumPy ints, 0-d integer arrays —
+    is the same natural number `ts`, so an unsigned 0 cannot wrap in `ts_length-1`), init handling,
+    then `random_state.random(size=(k, ts_length-1))` (`ValueError` for `ts_length = 0`: negative
     dimension), then the kernel. `us` must have shape `(k, ts-1)`. -/
 def simulateIndices (n : Nat) (f : Nat → List α → Option (List Nat)) (init : Init)
     (numReps : Option Nat) (drawn : List Nat) (ts : Nat) (us : List (List α)) :
@@ -358,7 +360,9 @@ def drvDraw [Add α] [LT α] [DecidableLT α] (q us : List α) : Option (List Na
       let i := npSearchRight Q u
       if i = Q.length then npSearchLeft Q last else i)
 
-/-- `quantecon.random.draw(cdf, size)` with uniforms `us` -/
+/-- `quantecon.random.draw(cdf, size)` with uniforms `us`: one index per uniform. For every
+    `numbers.Integral` `size` (fix c73be8b: NumPy integers included) `len us = size` and an array is
+    returned; for `size=None` one uniform, one (scalar) index. -/
 def draw [LT α] [DecidableLT α] [BEq α] (cdf us : List α) : List Int :=
   us.map (searchsortedCdfPy cdf)
 
